@@ -934,6 +934,48 @@ func feasibleSuccs(pred, b *ssa.BasicBlock) []*ssa.BasicBlock {
 	return b.Succs[1:]
 }
 
+// enumPaths lists the acyclic paths from the entry of fn to the returns accepted by target, each as the branch
+// conditions taken along it (phi-tests resolved edge by edge, as in reach). complete is false when the limit was hit.
+func enumPaths(fn *ssa.Function, target func(*ssa.Return) bool, limit int) (paths [][]condEdge, complete bool) {
+	complete = true
+	onPath := map[*ssa.BasicBlock]bool{}
+	var walk func(pred, b *ssa.BasicBlock, conds []condEdge)
+	walk = func(pred, b *ssa.BasicBlock, conds []condEdge) {
+		if !complete || onPath[b] {
+			return
+		}
+		if len(paths) >= limit {
+			complete = false
+			return
+		}
+		if len(b.Instrs) == 0 {
+			return
+		}
+		last := b.Instrs[len(b.Instrs)-1]
+		switch x := last.(type) {
+		case *ssa.Return:
+			if target(x) && (fn.Recover == nil || b != fn.Recover) {
+				paths = append(paths, append([]condEdge{}, conds...))
+			}
+			return
+		case *ssa.Panic:
+			return
+		}
+		onPath[b] = true
+		defer func() { onPath[b] = false }()
+		feas := feasibleSuccs(pred, b)
+		for _, sx := range feas {
+			next := conds
+			if iff, ok := last.(*ssa.If); ok && len(b.Succs) == 2 {
+				next = append(append([]condEdge{}, conds...), condEdge{cond: iff.Cond, taken: sx == b.Succs[0], ifIn: iff})
+			}
+			walk(b, sx, next)
+		}
+	}
+	walk(nil, fn.Blocks[0], nil)
+	return paths, complete
+}
+
 func isReturn(in ssa.Instruction) bool { _, ok := in.(*ssa.Return); return ok }
 
 // returnsOf lists the Return instructions of fn.
